@@ -289,14 +289,20 @@ func c01Run(c *Case) []any {
 		}
 		line["vals"] = tc.Vals
 	}
-	of, on, om, og := []any{}, []any{}, []any{}, []any{}
+	of, on, om, og, oq, op := []any{}, []any{}, []any{}, []any{}, []any{}, []any{}
 	for _, v := range vals {
 		of = append(of, verdict(func() error { return schema.VisitJSON(v.f64) }))
 		on = append(on, verdict(func() error { return schema.VisitJSON(v.num) }))
 		om = append(om, boolVerdict(func() bool { return schema.IsMatching(v.f64) }))
 		og = append(og, verdict(func() error { return schema.VisitJSON(goNative(v.f64)) }))
+		// the directed readings as the request / response validators call them: defaults are installed into the value, so
+		// every run gets a value of its own
+		fresh := func() any { return decodeJSONText(taggedToJSONText(v.tagged), false) }
+		dset := openapi3.DefaultsSet(func() {})
+		oq = append(oq, verdict(func() error { return schema.VisitJSON(fresh(), openapi3.VisitAsRequest(), dset) }))
+		op = append(op, verdict(func() error { return schema.VisitJSON(fresh(), openapi3.VisitAsResponse(), dset) }))
 	}
-	line["of"], line["on"], line["om"], line["og"] = of, on, om, og
+	line["of"], line["on"], line["om"], line["og"], line["oq"], line["op"] = of, on, om, og, oq, op
 	return []any{line}
 }
 
